@@ -66,12 +66,15 @@ func runLog(r *verifsim.Run) {
 			dt = 0
 		}
 		clock.Advance(dt)
-		letter := "abc"[r.Pick(5, 2, 1)]
+		letter := "abc%"[r.Pick(5, 2, 1, 1)]
 		var msg string
 		buf.Reset()
 		switch r.Draw(4) {
 		case 0:
 			msg = string(letter)
+			if letter == '%' {
+				msg = []string{"100%", "50%d done", "%s", "a%vb", "%!"}[r.Draw(5)] // text that looks like a format
+			}
 			lim.Print(msg)
 		case 1: // same format, argument decides the message
 			msg = fmt.Sprintf("error: %v", string(letter))
@@ -118,7 +121,11 @@ func runLog(r *verifsim.Run) {
 				}
 			}
 			lastPrinted = msg
-			hist = append(hist, letter-32)
+			if letter == '%' {
+				hist = append(hist, 'P')
+			} else {
+				hist = append(hist, letter-32)
+			}
 		} else {
 			suppressed++
 			r.Probe("repeat-suppressed")
